@@ -47,7 +47,7 @@ ALPHABETS = [
 ]
 FOREIGN = "zz"
 FORMS = ["bare", "http", "schemeless", "upper", "dot", "split", "auth", "httpdot", "auth2", "dotport", "hostq", "hostfrag", "bareport", "wss", "baredslash", "bareq", "barefrag", "bareqdots", "auth3", "bareqsurl"]
-NET_FAULTS = ["net_refused", "net_reset_on_read", "net_truncated", "net_garbage", "net_stale"]
+NET_FAULTS = ["net_refused", "net_reset_on_read", "net_truncated", "net_garbage", "net_stale", "net_incomplete_read"]
 DISK_FAULTS = ["disk_open_error", "disk_write_error", "disk_close_error", "crash_during_write", "crash_between"]
 FAULT_KINDS = NET_FAULTS + DISK_FAULTS
 
@@ -421,7 +421,7 @@ def draw_fault(frng, enabled, n_writes):
     f = {"kind": kind}
     if kind.startswith("net_"):
         f["which"] = frng.choice([0, 0, 1])
-        if kind == "net_truncated":
+        if kind in ("net_truncated", "net_incomplete_read"):
             f["at"] = frng.choice([0.0, 0.3, 0.5, 0.8, 0.97, frng.random()])
     elif kind == "disk_close_error":
         f["keep"] = frng.choice([0.0, 0.5, 0.9, frng.random()])
@@ -687,6 +687,7 @@ class LifeRun(Base):
         self.expected = None  # list of rules in effect
         self.persisted = None
         self.faults_seen = 0
+        self.file_may_be_torn = False  # a disk fault or crash hit a persisted upgrade since the last good boot
         self.origin = None
         self.touched = []
         self.probe_rules = list(config.get("probe_rules", []))
@@ -804,6 +805,9 @@ class LifeRun(Base):
         except Exception as exc:  # torn data file: the node is down
             if self.disk.files[self.node.data_path] == self.last_good:
                 raise
+            if not self.file_may_be_torn:
+                # no disk fault, no crash: only upgrade() itself can have damaged the file
+                raise Violation("data_file_does_not_boot_without_any_disk_fault", op, "%s: %s" % (type(exc).__name__, str(exc)[:80]), "a data file that imports", {"note": "since the last good boot only network faults (if any) were injected"})
             stats.probe("restart_bootfail")
             stats.event("OP|bootfail|%s" % type(exc).__name__)
             # the operator reinstalls the last data file known to boot
@@ -822,6 +826,7 @@ class LifeRun(Base):
                 raise Violation("tld_answer_depends_on_history", op, r([d[0] for d in diff]), r([d[1] for d in diff]), {"note": "same TLD list, same label, asked before and after a restart"})
             stats.probe("tld_answers_compared_across_restart")
         self.last_good = self.disk.files[self.node.data_path]
+        self.file_may_be_torn = False
         loaded = list(module.PUBLIC_SUFFIXES) + list(module.PRIVATE_SUFFIXES)
         if sorted(self.current_lists()) != sorted(loaded):
             raise HarnessError("restart did not install the durable data module")
@@ -887,6 +892,8 @@ class LifeRun(Base):
             self.faults_seen += 1
         self.net.begin_upgrade(fault)
         self.disk.begin_upgrade(fault)
+        if fault is not None and not fault["kind"].startswith("net_"):
+            self.file_may_be_torn = True
         path = self.node.data_path
         before = self.disk.files[path]
         previous = self.expected
@@ -930,6 +937,11 @@ class LifeRun(Base):
                 # upgrade() reports success: only O1 can be evaluated
                 stats.probe("upgrade_ok_although_origin_failed")
                 self.check_current("upgrade")
+                # …and whatever upgrade() made of it, no complete pair of bodies ever
+                # arrived: the list in effect before the call is still the one in effect
+                stats.checks += 1
+                if previous is not None and sorted(self.current_lists()) != sorted(previous):
+                    self.raise_or_known({"invariant": "upgrade_installed_a_list_never_served", "got": "%d rules in effect" % len(self.current_lists()), "expected": "the %d rules in effect before the call" % len(previous), "host": "-", "form": canon(fault)}, "upgrade")
                 self.state("upgrade_ok")
                 return outcome
             if not transient and self.disk.opens == 0:
@@ -960,6 +972,13 @@ class LifeRun(Base):
             else:
                 stats.probe("failed_upgrade_left_old")
             self.check_current("upgrade_failed")
+            # a failed upgrade leaves the list that was in effect, or the served one
+            # (C08 is silent on which): never a third list, such as the one of the
+            # data file from before an earlier transient upgrade
+            stats.checks += 1
+            now = sorted(self.current_lists())
+            if previous is not None and now != sorted(previous) and (served is None or now != sorted(served)):
+                self.raise_or_known({"invariant": "failed_upgrade_left_a_third_list", "got": "%d rules in effect" % len(now), "expected": "the %d rules in effect before the call%s" % (len(previous), "" if served is None else " or the %d served" % len(served)), "host": "-", "form": canon(fault)}, "upgrade_failed")
             if not transient:
                 self.persisted = None
         self.state("upgrade_" + outcome.split(":")[0])
